@@ -81,6 +81,24 @@ theorem read_remove_eq (p : Path) (fs : FS) : read (remove p fs) p = none := by
     · subst hk; simp [remove, ih]
     · simp [remove, read, hk, ih]
 
+/-- every existing savepoint has an id at most `newestSavepointId` -/
+theorem le_newestSavepointId (id : Nat) : ∀ (fs : FS) (c : Content), read fs (.spJob id) = some c →
+    id ≤ newestSavepointId fs := by
+  intro fs
+  induction fs with
+  | nil => intro c h; simp [read] at h
+  | cons e r ih =>
+    intro c h
+    obtain ⟨q, c'⟩ := e
+    by_cases hq : q = .spJob id
+    · subst hq; simp only [newestSavepointId]; exact Nat.le_max_left _ _
+    · have hr : read r (.spJob id) = some c := by simpa [read, hq] using h
+      have := ih c hr
+      cases q with
+      | work u => simpa [newestSavepointId] using this
+      | sp i d b => simpa [newestSavepointId] using this
+      | spJob i => simp only [newestSavepointId]; exact Nat.le_trans this (Nat.le_max_right _ _)
+
 /-! ### `copyAll` -/
 
 /-- both the source and the destination of `u` hold the same content -/
